@@ -93,6 +93,10 @@ def paramNum (name : String) : Option Nat :=
 /-- the token predicates below scan the SQL for generated names; they are evaluated only
     when the user's own text cannot be mistaken for generated text -/
 def cleanForTokens (segs : List OSeg) : Bool :=
+  -- two expansions glued together: the second may start with a digit (a db tag like "9")
+  -- and read as the continuation of the number that ends the first
+  (let ne := segs.filter fun s => !(s.kind == .bypass && s.raw.size == 0)
+   (ne.zip ne.tail).all fun (a, b) => a.kind == .bypass || b.kind == .bypass) &&
   segs.all fun s => !(containsSub s.raw "sqlair_") && !(s.kind == .bypass && isDigitB (s.raw.getD 0 0)) &&
     s.cols.all (fun c => !isDigitB (c.column.getD 0 0) && !isDigitB (c.table.getD 0 0)) &&
     s.types.all (fun t => !isDigitB (t.member.getD 0 0))
